@@ -704,3 +704,44 @@ def chord_cache_ok(cache, sevenths):
     diatonic chords of that key"""
     return all([is_key(k) and [list(c) for c in cache[k]] == (diatonic_sevenths(k) if sevenths else diatonic_triads(k))
                 for k in cache])
+
+
+# ------------------------------------------------------------------ MIDI track walkers: the event view
+
+def ticks288(v):
+    """length of a value-v note in ticks at 72 ticks per quarter (288 per whole note), rounded half to even"""
+    return int(round((1.0 / v) * 288))
+
+
+def is_rest_entry(e):
+    return e[2] is None or len(e[2].notes) == 0
+
+
+def nc_midi_valid(nc):
+    """every note of the container is a valid name whose channel, velocity and pitch number + 12 fit MIDI"""
+    return all([is_name(n.name) and 0 <= n.channel and n.channel <= 15 and 0 <= n.velocity and n.velocity <= 127
+                and 0 <= pitch(n) + 12 and pitch(n) + 12 <= 127 for n in nc.notes])
+
+
+def entry_events(track, d, e):
+    """what MidiTrack.play_Bar does for one bar entry when d ticks of rest are pending: a rest only lengthens the
+    pending delay; notes get the pending delay as delta time, an optional tempo change, the note-ons, the entry's
+    length as the next delta time, and the note-offs"""
+    return [] if is_rest_entry(e) else (
+        [('set_deltatime', d)] +
+        ([('set_deltatime', 0), ('set_tempo', e[2].bpm)] if hasattr(e[2], 'bpm') else []) +
+        [('play_NoteContainer', e[2]), ('set_deltatime', track.int_to_varbyte(ticks288(e[1]))),
+         ('stop_NoteContainer', e[2])])
+
+
+def delay_after(d, e):
+    return d + ticks288(e[1]) if is_rest_entry(e) else 0
+
+
+def entries_events(track, d, entries):
+    return [] if len(entries) == 0 else (entry_events(track, d, entries[0]) +
+                                         entries_events(track, delay_after(d, entries[0]), entries[1:]))
+
+
+def final_delay(d, entries):
+    return d if len(entries) == 0 else final_delay(delay_after(d, entries[0]), entries[1:])
